@@ -10,7 +10,7 @@ MANIFEST = dict(
     ref="DESIGN.md 3/C18",
 )
 RULE = (
-    "W9: all binary tree shapes up to N nodes (quick 9, thorough 11), full binary trees up to 15 nodes, random full trees to 49 "
+    "W9: all binary tree shapes up to N nodes (quick 9, thorough 12), full binary trees up to 15 nodes, random full trees to 49 "
     "nodes, random shapes to 60 nodes, parsed expression trees; unit multipliers {1, 2, 0.5, 10} x {1, 3, 0.25, 7}; every tree laid "
     "out twice and mirrored; node ids fresh / all equal / three ids round-robin / a clone() of such a tree (ids are not unique "
     "within a tree), live parsed expressions and the clone-built results of DM / DF / BM laid out directly.  distinct non-trivial = (shape, multipliers) with >= 3 nodes whose invariants were all evaluated."
@@ -206,6 +206,8 @@ def drive_shape(rec, s, units, fac=None, ids="fresh"):
                 lay.layout(t, ux, uy)
                 lay.layout(t)
                 lay.layout(t, unit_y_multiplier=uy)
+                lay.layout(t, ux)                       # only the horizontal unit given: the vertical one is 1
+                lay.layout(t, unit_x_multiplier=ux)
                 rec.arm("layout:default-units-after-explicit-ones")
             except Exception:
                 pass
@@ -314,7 +316,7 @@ def run(rec, cfg):
     rec.accept = {"layout"}
     attach_layout("C18")
     rng = cfg.rng("c18")
-    nmax = cfg.scale(9, 11)
+    nmax = cfg.scale(9, 12)
     idx = 0
     for s in W9.all_shapes_upto(nmax):
         idx += 1
